@@ -610,6 +610,8 @@ func (p *nriPlugin) StopContainer(ctx context.Context, pod *api.PodSandbox, cont
 	p.unmapContainer(c)
 
 	if err := m.policy.ReleaseResources(c); err != nil {
+		// The runtime has stopped the container no matter what.
+		c.UpdateState(cache.ContainerStateExited)
 		return nil, fmt.Errorf("failed to release resources: %w", err)
 	}
 
